@@ -191,6 +191,9 @@ impl<'a> UserModel<'a> {
                         .extend_to(sheet, source_row, column, row, column)?;
                 }
 
+                // the link before the value is set: setting it can remove the
+                // link (empty value) or auto-create one (URL-like value)
+                let old_link = self.model.get_cell_link(sheet, row, column)?;
                 self.model
                     .set_user_input(sheet, row, column, target_value.to_string())?;
 
@@ -214,7 +217,7 @@ impl<'a> UserModel<'a> {
                     old_value: Box::new(old_value),
                 });
 
-                self.fill_cell_link(sheet, source_row, column, row, column, &mut diff_list)?;
+                self.fill_cell_link(sheet, source_row, column, row, column, old_link, &mut diff_list)?;
 
                 index = (index + sign) % source_area.height;
             }
@@ -334,6 +337,9 @@ impl<'a> UserModel<'a> {
                         .extend_to(sheet, row, source_column, row, column)?;
                 }
 
+                // the link before the value is set: setting it can remove the
+                // link (empty value) or auto-create one (URL-like value)
+                let old_link = self.model.get_cell_link(sheet, row, column)?;
                 self.model
                     .set_user_input(sheet, row, column, target_value.to_string())?;
 
@@ -359,7 +365,7 @@ impl<'a> UserModel<'a> {
                     old_value: Box::new(old_value),
                 });
 
-                self.fill_cell_link(sheet, row, source_column, row, column, &mut diff_list)?;
+                self.fill_cell_link(sheet, row, source_column, row, column, old_link, &mut diff_list)?;
 
                 index = (index + sign) % source_area.width;
             }
@@ -379,16 +385,20 @@ impl<'a> UserModel<'a> {
         source_column: i32,
         row: i32,
         column: i32,
+        old_link: Option<crate::types::Link>,
         diff_list: &mut Vec<Diff>,
     ) -> Result<(), String> {
         let new_link = self.model.get_cell_link(sheet, source_row, source_column)?;
-        let old_link = self.model.get_cell_link(sheet, row, column)?;
+        let current_link = self.model.get_cell_link(sheet, row, column)?;
+        if current_link != new_link {
+            match &new_link {
+                Some(link) => self.model.set_cell_link(sheet, row, column, link.clone())?,
+                None => self.model.delete_cell_link(sheet, row, column)?,
+            }
+        }
+        // `old_link` is the link the target had before the fill touched it
         if old_link == new_link {
             return Ok(());
-        }
-        match &new_link {
-            Some(link) => self.model.set_cell_link(sheet, row, column, link.clone())?,
-            None => self.model.delete_cell_link(sheet, row, column)?,
         }
         diff_list.push(Diff::SetCellLink {
             sheet,
